@@ -49,6 +49,9 @@ pub struct Node {
     pub conns: BTreeMap<String, crate::net::Conn>,
     pub net_inbox: BTreeMap<String, Vec<String>>,
     pub barrier_no: u64,
+    // connections that were sent raw bytes: what state the server's side is in (half a line, half a message) is
+    // not known, so no barrier line is put on them any more
+    pub tainted: std::collections::BTreeSet<String>,
 }
 
 pub fn drain(rx: &mut Receiver<String>) -> Vec<String> {
@@ -132,7 +135,7 @@ impl Node {
                     transport: "direct".to_string(),
                     port: 0,
                     conns: BTreeMap::new(),
-                    net_inbox: BTreeMap::new(), barrier_no: 0,
+                    net_inbox: BTreeMap::new(), barrier_no: 0, tainted: std::collections::BTreeSet::new(),
                 })
             }
             Err(e) => Err(panic_msg(e)),
@@ -201,6 +204,7 @@ impl Node {
                 Err(e) => return json!({"cls":"closed","msg":e}),
             }
         }
+        self.tainted.insert(c.to_string());
         let k = self.conns.get_mut(c).unwrap();
         let r = match k.send_raw(opcode, fin, bytes) {
             Ok(_) => json!({"cls":"ok"}),
@@ -385,6 +389,13 @@ impl Node {
             // line works there as well; the silence rule below stays as a second line of defence)
             let mut any_ws = false;
             for (c, k) in self.conns.iter_mut() {
+                if self.tainted.contains(c) {
+                    let got = k.poll(std::time::Duration::from_millis(2));
+                    if !got.is_empty() {
+                        self.net_inbox.entry(c.clone()).or_insert(vec![]).extend(got);
+                    }
+                    continue;
+                }
                 let got = k.barrier(&tag);
                 if !got.is_empty() {
                     self.net_inbox.entry(c.clone()).or_insert(vec![]).extend(got);
